@@ -37,19 +37,17 @@ def build(spec):
     bm = bm_sectors(spb)
     table_off = spec.get("table_offset", 1536)
     bat_bytes = b""
+    if isinstance(spec["bat"], dict):  # sparse description of a huge table: {block index: slot}
+        spec = dict(spec, bat=[spec["bat"].get(str(i)) for i in range(n)])
     slots = [s for s in spec["bat"] if s is not None]
     data_start = (table_off + 4 * n + 511) // 512
     data_start += spec.get("data_gap", 0)
-    for b in spec["bat"]:
-        if b is None:
-            bat_bytes += (0xFFFFFFFF).to_bytes(4, "big")
-        else:
-            bat_bytes += (data_start + b * (bm + spb)).to_bytes(4, "big")
+    bat_bytes = b"".join((0xFFFFFFFF if b is None else data_start + b * (bm + spb)).to_bytes(4, "big") for b in spec["bat"])
     f.put(table_off, bat_bytes)
     for s in slots:
         base = (data_start + s * (bm + spb)) * 512
         f.put(base, b"\xff" * (bm * 512))
-        f.put(base + bm * 512, bytes(pattern(s, j) for j in range(bs)))
+        f.put_fn(base + bm * 512, bs, lambda start, n, s=s: bytes(pattern(s, j) for j in range(start, start + n)))
     nslots = (max(slots) + 1) if slots else 0
     end = (data_start + nslots * (bm + spb)) * 512
     footer = c_vhd.footer(cookie=b"conectix", features=0 if spec.get("footer511") else 2, version=0x10000, data_offset=512,
@@ -72,10 +70,18 @@ def oracle(spec, off, length):
     if spec["kind"] == "fixed":
         return bytes(pattern(0, j) for j in range(off, end))
     bs = spec["spb"] * 512
+    bat = spec["bat"]
     for x in range(off, end):
-        slot = spec["bat"][x // bs]
+        slot = bat.get(str(x // bs)) if isinstance(bat, dict) else bat[x // bs]
         out.append(0 if slot is None else pattern(slot, x % bs))
     return bytes(out)
+
+
+def big_specs():
+    """C13: 2 TiB virtual disk, 2 MiB blocks, allocated blocks placed close to the 2^32-sector limit of the BAT entries"""
+    n = 1 << 20
+    return [{"kind": "dynamic", "spb": 4096, "nblocks": n, "size": n * 4096 * 512, "bat": {"0": 3, "7": 1040000, str(n - 1): 1047000, "524288": 2}, "footer511": False, "data_gap": 0,
+             "requests": [[0, 4096], [7 * 2097152 + 2097000, 1000], [(n - 1) * 2097152 + 100, 70000], [524288 * 2097152 - 512, 2048], [5 * 2097152, 1 << 20]]}]
 
 
 def open_real(fh, spec):
